@@ -359,8 +359,8 @@ impl Property for C17 {
     }
     fn budget(&self, tier: Tier) -> (u32, usize) {
         match tier {
-            Tier::Quick => (40_000, 8),
-            Tier::Thorough => (500_000, 16),
+            Tier::Quick => (200_000, 8),
+            Tier::Thorough => (3_000_000, 16),
         }
     }
     fn run(&self, case: &FbCase) -> Report {
